@@ -127,6 +127,8 @@ Definition filtered_sec (s : pmt_sec) (want : list N) : pmt_sec :=
 (* requested PIDs that count as missing: not in the PMT, and neither the PAT PID nor the PMT PID *)
 Definition missing_of (have : list N) (pmt_pid : N) (want : list N) : list N :=
   filter (fun x => negb (existsb (N.eqb x) have) && negb (x =? 0) && negb (x =? pmt_pid)) want.
+(* a requested PID that does not count as missing *)
+Definition requested_ok (have : list N) (pmt_pid x : N) : Prop := In x have \/ x = 0 \/ x = pmt_pid.
 (* re-packetisation: output packet i = header of input packet i (everything before its payload), the next
    188 - |header| bytes of the data, 0xFF padding; input packets beyond the end of the data are dropped *)
 Fixpoint spec_repack (hdrs : list bytes) (data : bytes) : list bytes :=
